@@ -1,9 +1,87 @@
 import SoundeventModel.Ops.Common
+import SoundeventModel.Axis
 namespace SE.Ops.C16
-open Lean SE
+open Lean SE SE.Axis
 
-def handle (op : String) (_a : Json) : Except String Json := do
+def araiseJ (e : AErr) : Json := Json.mkObj [("raise", Json.str e.name)]
+def aexceptJ {α} (f : α → Json) : Except AErr α → Json
+  | .ok a => valJ (f a)
+  | .error e => araiseJ e
+
+def fldOptInt (j : Json) (k : String) : Except String (Option Int) :=
+  match fldOpt j k with
+  | none => .ok none
+  | some v => do return some (← v.getInt?)
+
+def rangeDimJ (r : RangeDim) : Json :=
+  Json.mkObj [("coords", ratsJ r.coords), ("step", ratJ r.step)]
+
+def getNDArr (j : Json) : Except String (NDArr Rat) := do
+  return { shape := ← getNatList (← fld j "shape"), data := ← getRatList (← fld j "data") }
+
+def getVal (j : Json) : Except String (Val Rat) :=
+  match fldOpt j "scalar" with
+  | some s => do return .scalar (← getRat s)
+  | none => do return .arr (← getNDArr j)
+
+def getQuery (j : Json) : Except String (List (Nat × Rat)) := do
+  (← getArr j).mapM fun p => do
+    match ← getArr p with
+    | [k, q] => return (← k.getNat?, ← getRat q)
+    | _ => .error "query entry"
+
+def getAErr (s : String) : Except String AErr :=
+  match s with
+  | "invalid" => .ok .invalid
+  | "key" => .ok .key
+  | "index" => .ok .index
+  | "zerodiv" => .ok .zerodiv
+  | _ => .error s!"unknown error class {s}"
+
+/-- an observed output `{"val": …}` / `{"raise": …}`; an error class the model does not know
+    (a crash) is mapped to `index`, which no statement accepts -/
+def getOut {α} (f : Json → Except String α) (j : Json) : Except String (Except AErr α) :=
+  match fldOpt j "raise" with
+  | some r => do
+    let s ← r.getStr?
+    match getAErr s with
+    | .ok e => return .error e
+    | .error _ => return .error .index
+  | none => do return .ok (← f (← fld j "val"))
+
+def getRangeDim (j : Json) : Except String RangeDim := do
+  return { coords := ← getRatList (← fld j "coords"), step := ← fldRat j "step" }
+
+def handle (op : String) (a : Json) : Except String Json := do
   match op with
+  | "range_dim" =>
+    let kind ← fldStr a "kind"
+    let start ← fldRat a "start"
+    let stop ← fldRat a "stop"
+    let step ← fldOptRat a "step"
+    match kind with
+    | "range" => return aexceptJ rangeDimJ (createRangeDim start stop step (← fldOptInt a "size"))
+    | "time" => return aexceptJ rangeDimJ (createTimeRange start stop step (← fldOptRat a "samplerate"))
+    | "frequency" =>
+      match step with
+      | some s => return aexceptJ rangeDimJ (createFrequencyRange start stop s)
+      | none => .error "frequency range needs a step"
+    | _ => .error s!"unknown kind {kind}"
+  | "coord_index" =>
+    return aexceptJ natJ (coordIndex (← getRatList (← fld a "coords")) (← fldRat a "v") (← fldBool a "raise"))
+  | "set_value" =>
+    let arr ← getNDArr a
+    let axes ← (← fldArr a "axes").mapM getRatList
+    let q ← getQuery (← fld a "query")
+    let v ← getVal (← fld a "value")
+    return aexceptJ (fun (r : NDArr Rat) => ratsJ r.data) (setValueAtPos arr axes q v)
+  | "holds_range" =>
+    let out ← getOut getRangeDim (← fld a "out")
+    return boolJ (rangeSpec (← fldRat a "start") (← fldRat a "stop") (← fldRat a "step") out)
+  | "holds_index" =>
+    let out ← getOut (fun j => j.getNat?) (← fld a "out")
+    return boolJ (indexSpec (← getRatList (← fld a "coords")) (← fldRat a "v") (← fldBool a "raise") out)
+  | "noop" => return Json.null
   | _ => .error s!"C16: unknown op {op}"
 
 end SE.Ops.C16
